@@ -1,46 +1,30 @@
 #!/usr/bin/env python3
 """Translator for data: constants/tables of /repo's *current* source -> lean/Percival/Gen/*.lean.
-Run at the start of every check.  A missing item is reported (broken tie), never skipped."""
-import os, re, subprocess
+Run at the start of every check.  A missing item is reported (broken tie), never skipped.
+Extractors live in tools/extractors/*.py and register with @extract_core.extractor."""
+import importlib, os, sys
+sys.path.insert(0, os.path.dirname(os.path.abspath(__file__)))
+import extract_core
+from extract_core import write_if_changed   # re-exported for gen_main.py
 
-def write_if_changed(path, text):
-    old = open(path).read() if os.path.exists(path) else None
-    if old != text:
-        with open(path, "w") as f:
-            f.write(text)
+_ed = os.path.join(os.path.dirname(os.path.abspath(__file__)), "extractors")
+for _f in sorted(os.listdir(_ed)):
+    if _f.endswith(".py") and _f != "__init__.py":
+        importlib.import_module("extractors." + _f[:-3])
 
-EXTRACTORS = []   # functions (repo) -> (module_name, lean_text, [messages])
-
-def extractor(fn):
-    EXTRACTORS.append(fn)
-    return fn
-
-def read(repo, rel):
-    with open(os.path.join(repo, rel), errors="replace") as f:
-        return f.read()
-
-def strip_c_comments(s):
-    return re.sub(r"/\*.*?\*/", " ", s, flags=re.S)
 
 def regenerate(repo, outdir):
     msgs = []
     os.makedirs(outdir, exist_ok=True)
-    for fn in EXTRACTORS:
+    for fn in extract_core.EXTRACTORS:
         try:
             name, text, m = fn(repo)
             msgs += m
             write_if_changed(os.path.join(outdir, name + ".lean"), text)
-        except Exception as e:   # source no longer has the shape the extractor knows
+        except Exception as e:   # the source no longer has the shape the extractor knows
             msgs.append("%s: %r" % (fn.__name__, e))
     return msgs
 
-import importlib, sys
-sys.path.insert(0, os.path.dirname(os.path.abspath(__file__)))
-for _m in ("extract_defs",):
-    try:
-        importlib.import_module(_m)
-    except ModuleNotFoundError:
-        pass
 
 if __name__ == "__main__":
     here = os.path.dirname(os.path.dirname(os.path.abspath(__file__)))
